@@ -53,8 +53,8 @@ Proof.
   change (map_units f p) with (map (map_lib f) p). rewrite HL. cbn [bind]. exact HV.
 Qed.
 
-(* `adddecl_valid` AS PINNED IS FALSE (see the UNPROVED block at the end of this file); what holds is the statement
-   with three extra hypotheses: the fresh identifier is not one of the two predefined literals, and — unless the
+(* `adddecl_valid` needs three side conditions (see the HISTORY block at the end of this file), stated here as
+   hypotheses and decided by `applicable`: the fresh identifier is not one of the two predefined literals, and — unless the
    inserted declaration does not mention `true` (k = 0, k = 2) — the identifier id_true is never declared in p. *)
 Definition never_declared (z : ident) (p : program) : Prop := forall n, ~ In (n, OOther, z) (occs_program p).
 Definition adddecl_side (p : program) (x : ident) (k : N) : Prop :=
@@ -75,6 +75,7 @@ Theorem adddecl_valid_partial : forall p s x k,
   Valid (apply_rewrite (RAddDecl s x k) p).
 Proof.
   intros p s x k HV HA [Hx1 [Hx2 Hk]]. unfold applicable in HA. apply andb_true_iff in HA. destruct HA as [Hnd HA].
+  apply andb_true_iff in HA. destruct HA as [HA _].
   apply andb_true_iff in HA. destruct HA as [HA Hsite]. apply andb_true_iff in HA. destruct HA as [Hfresh Hx0].
   apply negb_true_iff in Hfresh. apply memb_false in Hfresh. apply negb_true_iff in Hx0. apply N.eqb_neq in Hx0.
   apply nodup_list_sound in Hnd. unfold Valid, check_program, check_program_md in *.
@@ -114,21 +115,39 @@ Proof.
   change (map_units f p) with (map (map_lib f) p). rewrite HL. cbn [bind]. exact HV.
 Qed.
 
-(* the pinned statement is refuted by a concrete program *)
+(* `applicable` now carries the side condition (decidably), so the pinned statement holds *)
+Lemma never_declared_b_sound z p : never_declared_b z p = true -> never_declared z p.
+Proof.
+  unfold never_declared_b, never_declared. intros H n Hin. apply negb_true_iff in H.
+  apply not_true_iff_false in H. apply H. apply existsb_exists. exists (n, OOther, z).
+  split; [exact Hin|]. cbn [fst snd]. apply N.eqb_refl.
+Qed.
+
+Theorem adddecl_valid : forall p s x k,
+  Valid p -> applicable (RAddDecl s x k) p = true -> Valid (apply_rewrite (RAddDecl s x k) p).
+Proof.
+  intros p s x k HV HA. apply adddecl_valid_partial; [exact HV|exact HA|].
+  unfold applicable in HA. apply andb_true_iff in HA. destruct HA as [_ HA].
+  apply andb_true_iff in HA. destruct HA as [_ HS].
+  apply andb_true_iff in HS. destruct HS as [HS Hk]. apply andb_true_iff in HS. destruct HS as [H1 H2].
+  apply negb_true_iff in H1. apply N.eqb_neq in H1. apply negb_true_iff in H2. apply N.eqb_neq in H2.
+  split; [exact H1|]. split; [exact H2|].
+  apply orb_true_iff in Hk. destruct Hk as [Hk|Hk].
+  - apply orb_true_iff in Hk. destruct Hk as [Hk|Hk]; apply N.eqb_eq in Hk; [left|right; left]; exact Hk.
+  - right. right. apply never_declared_b_sound. exact Hk.
+Qed.
+
+(* regression: the program that refuted the statement before `applicable` carried the side condition *)
 Definition adddecl_cex : program :=
   [Lib 10 [DUnit [] (UEnt (Occ 100 11) [] []);
            DUnit [] (UArch (Occ 101 12) (Occ 102 11) [DSignal (Occ 103 13) TMBit None] CNil)]].
-Theorem adddecl_valid_as_pinned_is_false :
-  ~ (forall p s x k, Valid p -> applicable (RAddDecl s x k) p = true -> Valid (apply_rewrite (RAddDecl s x k) p)).
-Proof.
-  intros H. specialize (H adddecl_cex 103 id_false 0).
-  assert (V : Valid adddecl_cex) by (vm_compute; reflexivity).
-  assert (A : applicable (RAddDecl 103 id_false 0) adddecl_cex = true) by (vm_compute; reflexivity).
-  specialize (H V A). vm_compute in H. discriminate H.
-Qed.
+Example adddecl_cex_not_applicable :
+  Valid adddecl_cex /\ applicable (RAddDecl 103 id_false 0) adddecl_cex = false /\
+  check_program (apply_rewrite (RAddDecl 103 id_false 0) adddecl_cex) = Bad 104 Conservative.
+Proof. vm_compute. repeat split; reflexivity. Qed.
 
 (* ------------------------------------------------------------------------------------------------------------------
-   UNPROVED — and FALSE as stated (checked with vm_compute):
+   HISTORY — the statement was FALSE for the first definition of `applicable` (checked with vm_compute):
 
    Theorem adddecl_valid : forall p s x k,
      Valid p -> applicable (RAddDecl s x k) p = true -> Valid (apply_rewrite (RAddDecl s x k) p).
